@@ -733,6 +733,23 @@ def _split_ws(s, maxsplit=-1):
     return out
 
 
+def _dec_arith(v):
+    """decimal digits of a (symbolic) int v >= 0: one path per digit count; each digit is the
+    difference of two quotients (no `%`: CrossHair's mod of a compound term such as -n does not finish)"""
+    n = 1
+    lim = 10
+    while v >= lim:
+        n += 1
+        lim *= 10
+    out = []
+    qhi = 0
+    for k in range(n - 1, -1, -1):
+        q = v // (10 ** k)
+        out.append(chr(48 + (q - 10 * qhi)))
+        qhi = q
+    return "".join(out)
+
+
 _FMT = _re.compile(r"%(\([^)]*\))?([#0\- +]*)(\*|\d+)?(\.(\*|\d+))?([bsrdiuxXoc%a])")
 
 
@@ -772,10 +789,7 @@ def _fmt(f, args):
         elif (conv in "diu" and spec == "%" and isinstance(a, int) and not isinstance(a, bool)
               and not _is_conc(a)):
             # plain %d of a symbolic int: decimal digits by arithmetic (formatting would realise it)
-            if a < 0:
-                out.append("-" + _fmt_int_arith(-a, 10, False, 0, False))
-            else:
-                out.append(_fmt_int_arith(a, 10, False, 0, False))
+            out.append(("-" + _dec_arith(-a)) if a < 0 else _dec_arith(a))
         else:
             out.append((spec + conv) % a)
     out.append(f[pos:])
